@@ -33,7 +33,7 @@ PARTIAL = ('proved for the model, all n >= 1, numiter >= 1, every ordered field 
            'numpy.linalg.norm meets its contract on the issued calls, the breakdown test only lets positive norms pass. '
            'Only validated, not proved: that the mirror equals krylov.py (replay), and floating-point effects '
            '(loss of orthogonality, a breakdown test decided by rounding noise).')
-ASSUMPTIONS = ['cases with a recorded loop norm in [100 n eps, 1e-6 max|A_ij|) (floating point noise decides the breakdown test) are '
+ASSUMPTIONS = ['cases with a recorded loop norm in [100 n eps max(1, max|A v0|), 1e-6 max|A_ij|) (floating point noise decides the breakdown test) are '
                'excluded from the correspondence and counted in the class "ambiguous"']
 
 SPECS = ['generic'] * 10 + ['degenerate'] * 6 + ['scalar', 'zero']
@@ -84,7 +84,7 @@ def cases(rng, tier):
         out.append(_case(rng, routine, n, m, rng.random() < 0.55, rng.choice(SPECS), rng.choice(STARTS)))
     KC.add_magnitudes(rng, out)
     # large spaces (implementation-level only): n >> numiter, matrix-free Householder-rotated diagonal map, start vector in a
-    # kdim-dimensional invariant subspace: the breakdown test (100 n eps, n the vector length) must recognise the exhausted space
+    # kdim-dimensional invariant subspace: the breakdown test (100 n eps max(1, max|A v0|), n the vector length) must recognise the exhausted space
     for n, m, kdim, scale in {'quick': ((10000, 4, 2, 1e3), (4000, 5, 3, 10.0), (300, 6, 2, 1.0)),
                               'thorough': ((10000, 4, 2, 1e3), (4000, 5, 3, 10.0), (300, 6, 2, 1.0), (20000, 3, 1, 1e3), (1000, 8, 4, 10.0)),
                               'search': ((10000, 4, 2, 1e3),)}[tier]:
@@ -131,8 +131,9 @@ def _impl_big(case):
         sizes_ok = V.shape[0] == n and H.shape == (k, k)
         T = np.asarray(H, dtype=complex) if sizes_ok else None
         pos = True
+    V0 = np.zeros(n, dtype=complex); V0[:] = v / np.linalg.norm(v)
     res = {'big': True, 'k': int(k), 'sizes_ok': bool(sizes_ok), 'warn': any(c == 'RuntimeWarning' for c, _ in rec.warns), 'pos': pos,
-           'norms': rec.norms}
+           'norms': rec.norms, 'mag': float(np.max(np.abs(Afunc(V0))))}
     if sizes_ok:
         L = min(k, kd)
         VL = V[:, :L]
@@ -153,8 +154,8 @@ def _prop_big(case, r):
     if r['k'] < min(m, kd):
         msgs.append('iteration stopped at %d although the Krylov space has dimension %d' % (r['k'], kd))
     # the exhausted space must be recognised whenever the residual norm recorded at the exhaustion point is below the documented
-    # threshold 100 n eps (n = length of the vectors); above it the absolute test legitimately lets rounding noise pass
-    if r['k'] > kd and len(r['norms']) > kd and r['norms'][kd] < KC.thr_of(case['n']):
+    # threshold 100 n eps max(1, |A v0|_inf) (n = length of the vectors); above it the test legitimately lets rounding noise pass
+    if r['k'] > kd and len(r['norms']) > kd and r['norms'][kd] < KC.thr_of(case['n'], r.get('mag', 1.0)):
         msgs.append('%d vectors returned although the Krylov space has dimension %d (n=%d, numiter=%d): exhaustion not recognised' % (r['k'], kd, case['n'], m))
     if r['warn'] != (r['k'] < m):
         msgs.append('shortened output without breakdown warning or vice versa (k=%d, numiter=%d, warn=%s)' % (r['k'], m, r['warn']))
@@ -219,8 +220,8 @@ def coq(case, r):
     if 'error' in r:
         fn = 'lanczos' if case['routine'] == 'lanczos' else 'arnoldi'
         return ('match %s QcF (matvec %s) (norm_tab QcF tol9 [qd 0 0%%N]) (small_thr QcF %s) %s %s with None => true | Some _ => false end'
-                % (fn, KC.cmat(KC.j2c(case['A'])), KC.qd(KC.thr_of(n)), KC.cvec(v), E.nat(m)))
-    if KC.ambiguous(r['norms'], n, KC.case_scale(case)) or case.get('mag') or case.get('proponly'):
+                % (fn, KC.cmat(KC.j2c(case['A'])), KC.qd(KC.case_thr(case)), KC.cvec(v), E.nat(m)))
+    if KC.ambiguous(r['norms'], n, KC.case_scale(case), KC.case_thr(case)) or case.get('mag') or case.get('proponly'):
         return None      # magnitude regimes: implementation-level property only (the tolerances of the Coq-side oracle lookup are absolute)
     head = KC.lanczos_args(case, r, r['norms'])
     if case['routine'] == 'lanczos':
@@ -233,7 +234,7 @@ def coq_diag(case, r):
     v = KC.j2c(case['v'])
     fn = 'lanczos' if case['routine'] == 'lanczos' else 'arnoldi'
     return ('%s QcF (matvec %s) (norm_tab QcF tol9 %s) (small_thr QcF %s) %s %s'
-            % (fn, KC.cmat(KC.j2c(case['A'])), KC.qdlist(r.get('norms', [0.0])), KC.qd(KC.thr_of(n)), KC.cvec(v), E.nat(min(m, 3))))
+            % (fn, KC.cmat(KC.j2c(case['A'])), KC.qdlist(r.get('norms', [0.0])), KC.qd(KC.case_thr(case)), KC.cvec(v), E.nat(min(m, 3))))
 
 
 def klass(case, r):
@@ -241,7 +242,7 @@ def klass(case, r):
         return '%s/error:%s' % (case['routine'], r['error'])
     if case.get('big'):
         return '%s/large-space/n%d/%s' % (case['routine'], case['n'], 'breakdown' if r['warn'] else 'complete')
-    amb = '/ambiguous' if KC.ambiguous(r['norms'], case['n'], KC.case_scale(case)) else ''
+    amb = '/ambiguous' if KC.ambiguous(r['norms'], case['n'], KC.case_scale(case), KC.case_thr(case)) else ''
     spec = case['spectrum'] if case['spectrum'] in ('generic', 'degenerate') else 'trivialA'
     start = 'invariant-start' if case['start'] in ('invariant', 'eigvec') else 'generic-start'
     return '%s/%s/%s/%s/%s%s%s' % (case['routine'], 'real' if case['real_A'] else 'cplx', spec, start,
